@@ -73,8 +73,12 @@ def gen(rng, tier, shape=None):
     if rng.random() < 0.3 and cur:
         # the file takes part in the session but none of its snapshots is evaluated: its externals are still referenced
         steps.append({"op": "run", "flags": ["create"], "answers": {c: False for c in common.CATS}})
-        steps.append({"op": "skipall"})
-        steps.append({"op": "run", "flags": rng.choice([["trim"], ["trim"], ["fix", "trim"], ["review"]]), "answers": {c: c == "trim" for c in common.CATS}})
+        desel = rng.random() < 0.5
+        if not desel:
+            steps.append({"op": "skipall"})
+        # (deselect: every test of the file is deselected with -k; the file is collected all the same)
+        steps.append({"op": "run", "flags": rng.choice([["trim"], ["trim"], ["fix", "trim"], ["review"]]), "answers": {c: c == "trim" for c in common.CATS},
+                      "deselect": desel})
     if not any(s["op"] == "run" for s in steps):
         steps.append({"op": "run", "flags": ["create"], "answers": {c: False for c in common.CATS}})
     return {"hash_length": hl, "steps": steps, "storage_dir": rng.choice([None, None, "snaps"])}
@@ -171,6 +175,8 @@ def run_impl(case):
                 before_store = listing(store_dir)
                 fl = st["flags"]
                 args = ["--inline-snapshot=" + ",".join(fl)] if fl else ["--inline-snapshot=short-report"]
+                if st.get("deselect"):
+                    args += ["-k", "zzz_no_such_test"]
                 prompts = [c for c in common.CATS if c not in fl]
                 stdin = ("\n".join(("y" if st["answers"][c] else "n") for c in prompts) + "\nn\nn\nn\nn\n").encode()
                 r = impl_pytest.run_session({}, args, stdin=stdin, pyproject=py, pre_existing_dir=d)
@@ -185,7 +191,7 @@ def run_impl(case):
                     pass
                 log.append({"flags": fl, "answers": st["answers"], "rc": r["rc"], "before_store": before_store,
                             "after_store": listing(store_dir), "changed": after_files != before_files,
-                            "refs_after": refs_in(after_files), "outsourced": [tests[k][0] for k in sorted(tests) if k not in skipped],
+                            "refs_after": refs_in(after_files), "outsourced": [] if st.get("deselect") else [tests[k][0] for k in sorted(tests) if k not in skipped],
                             "after_files": after_files, "traceback": "Traceback" in r["stderr"], "stderr": r["stderr"][-600:]})
         # white-box: prefix lookup on the final storage
         lookups = []
